@@ -81,7 +81,7 @@ def main():
         if a.baseline:
             rc, out = sh("%s/tools/baseline.sh %s" % (V, wt))
             res["baseline_rc"] = rc
-            res["baseline_tail"] = out[-400:]
+            res["baseline_tail"] = out[-6000:]
         res["checks"] = {}
         try:
             prior = json.load(open(os.path.join(seed, "result.json")))
